@@ -7,4 +7,6 @@ fn main() {
         .expect("Failed to execute git rev-parse HEAD.");
     let git_hash = String::from_utf8(output.stdout).unwrap().trim().to_string();
     println!("cargo:rustc-env=GIT_COMMIT={git_hash}");
+    // verification hook guard (see src/verif.rs); declared so that `--cfg ax_verif` is a known cfg
+    println!("cargo:rustc-check-cfg=cfg(ax_verif)");
 }
